@@ -254,6 +254,23 @@ add(
     "DESIGN.md sections 3.4 and 4, C06",
 )
 
+add(
+    "C12", "fault_enumeration",
+    "fault enumeration over generated inputs (every truncation offset, every single-record corruption, paired "
+    "faults) with an independent input-validity oracle; simulated schedules for the multi-core error path; real "
+    "process sample",
+    "For generated well-formed FASTQ inputs every truncation offset of the plain and gzip (single/multi-member) form, "
+    "every listed single-record corruption of every record and the paired faults are run with one core and sampled "
+    "with 2-3 real workers and chunk sizes that put the fault in the first/middle/last chunk; an independent strict "
+    "FASTQ + zlib oracle decides whether the faulted input is malformed: then exit status != 0 with an error message "
+    "and termination are required; exit 0 is accepted only for well-formed inputs and then every record must be in "
+    "the output; output written before an error must be complete records forming a prefix of the fault-free output. "
+    "The multi-core error path also runs under the schedule-owning simulator (deadlock = no runnable task).",
+    "Faults are enumerated completely per generated input; inputs, schedules and real-process runs are sampled. "
+    "'Never hangs' is decided exactly in the simulator and by a generous time bound for real runs.",
+    "DESIGN.md sections 3.5 and 4, C12",
+)
+
 NOT_APPLICABLE = []  # filled below for every property without a check
 
 ALL_IDS = [f"C{i:02d}" for i in range(1, 21)]
